@@ -188,7 +188,7 @@ func (r *Runner) RunHarness(x *Exec, base *State, fn *ssa.Function) (rep *Harnes
 func solversFor(dom Domain, thorough bool) (primary []string, fallback []string) {
 	switch dom {
 	case DomNone:
-		return []string{"z3"}, []string{"z3-new"}
+		return []string{"z3-new", "z3"}, []string{"cvc5"}
 	case DomFPX:
 		return []string{"cvc5", "z3-new"}, []string{"z3"}
 	default:
@@ -205,7 +205,10 @@ func (r *Runner) discharge(tf *TF, dom Domain, o *Obligation, rep *HarnessReport
 	}
 	asserts := append([]*Term(nil), o.PC...)
 	if o.Kind != "reach" {
-		asserts = append(asserts, tf.Not(o.Cond))
+		if o.negCond == nil {
+			panic("discharge: negated claim not prepared")
+		}
+		asserts = append(asserts, o.negCond)
 	}
 	p := NewPrinter(tf, dom)
 	script := p.Script(asserts)
@@ -287,6 +290,37 @@ type ReplayFile struct {
 	Vars     map[string]string `json:"vars"`
 	Choices  map[string]int64  `json:"choices"`
 	Solver   string            `json:"solver"`
+	Stream   string            `json:"stream,omitempty"` // hex bytes of the input stream reconstructed from the token trace
+}
+
+// buildStream turns the token trace of a path plus model values into the concrete input bytes.
+func buildStream(trace []string, vars map[string]string) string {
+	var bs []byte
+	num := func(name string) uint64 {
+		var u uint64
+		fmt.Sscan(vars[name], &u)
+		return u
+	}
+	for _, t := range trace {
+		switch {
+		case strings.HasPrefix(t, "B:"):
+			bs = append(bs, byte(num(t[2:])))
+		case strings.HasPrefix(t, "V:"):
+			v := num(t[2:])
+			for v >= 0x80 {
+				bs = append(bs, byte(v)|0x80)
+				v >>= 7
+			}
+			bs = append(bs, byte(v))
+		case strings.HasPrefix(t, "X:"):
+			var raw []byte
+			fmt.Sscanf(t[2:], "%x", &raw)
+			bs = append(bs, raw...)
+		case t == "E":
+			return fmt.Sprintf("%x", bs)
+		}
+	}
+	return fmt.Sprintf("%x", bs)
 }
 
 func modelToVars(o *Obligation, dom Domain) map[string]string {
